@@ -673,7 +673,7 @@ func (x *Exec) applyContract(c *CallCtx, ct *Contract) []Outcome {
 		}
 	}
 	for _, cl := range ct.Of("ensures") {
-		if strings.Contains(cl.Text, "$at(") || strings.Contains(cl.Text, "$called(") || strings.Contains(cl.Text, "$arg(") || strings.Contains(cl.Text, "$ret(") ||
+		if strings.Contains(cl.Text, "$gasChargedOuter") || strings.Contains(cl.Text, "$at(") || strings.Contains(cl.Text, "$called(") || strings.Contains(cl.Text, "$arg(") || strings.Contains(cl.Text, "$ret(") ||
 			strings.Contains(cl.Text, "$hook") || strings.Contains(cl.Text, "$nextCalled") || strings.Contains(cl.Text, "$errFromDeposit") || strings.Contains(cl.Text, "$depositCalls") {
 			// clauses about the callee body's own call structure are checked when the callee is verified;
 			// they say nothing a caller could use
@@ -860,6 +860,15 @@ func (c *cenv) Lookup(name string, old bool) (SV, bool) {
 			return SV{T: "true", Sort: "Bool"}, true
 		}
 		return SV{T: "false", Sort: "Bool"}, true
+	case "$gasChargedOuter":
+		// total amount charged to the transaction's (outer) gas meter on this path
+		sum := "0"
+		for _, gc := range st.gasCharged {
+			if gc[0] == "0" {
+				sum = app("+", sum, gc[1])
+			}
+		}
+		return SV{T: sum, Sort: "Int"}, true
 	case "$depositCalls":
 		return SV{T: fmt.Sprint(st.depositCalls), Sort: "Int"}, true
 	case "$errFromDeposit":
